@@ -432,3 +432,8 @@ CHECK = Check(
         "a TimeoutError is accepted only for finite-timeout calls and only if the next packet was not completely received at the time it was raised",
     ],
 )
+
+# thorough tier: the same strategy and oracle driven by the coverage-guided engine (pbt/covfuzz.py)
+from ..covfuzz import cov_layer  # noqa: E402
+
+CHECK.layers.append(cov_layer("C03", CHECK.layer("sync"), runs=8000, time_s=100))
